@@ -2,21 +2,34 @@ import ZvbiModel.Hamm.Lemmas
 import ZvbiModel.Hamm.Hamm24
 import ZvbiModel.Codec.Model
 import ZvbiModel.Codec.Spec
+import ZvbiModel.Codec.LemmasVps
+import ZvbiModel.Codec.Lemmas830
 /-!
 # C12 - VPS, PDC and 8/30 codecs are exact inverses; bad input is rejected untouched
 
-Property theorems only (helper lemmas live in `Hamm/` and `Codec/`).
+Property theorems only (helper lemmas live in `Hamm/` and `Codec/Lemmas*.lean`).
+
+Conventions of the model (`Codec/Model.lean`): a buffer is a `List Nat`; `bt b i` reads byte `i`;
+encoders return `(result, buffer after the call)`, decoders `Option value` (`none` = FALSE, nothing
+stored).  `Bytes b` says every element is `< 256` (what `uint8_t[]` guarantees).
+Every theorem quantifies over all buffers and all field values of the stated ranges.
 -/
 namespace Zvbi.Props.C12
-open Zvbi.Hamm Zvbi.Codec
+open Zvbi.Hamm Zvbi.Codec Zvbi.Codec.Spec
+
+/-! ## Hamming layer -/
 
 /-- One correctable bit error in a Hamming 8/4 protected byte does not change the decoded value. -/
 theorem hamm8_single_error_corrected : ∀ n < 16, ∀ k < 8, unham8 (ham8 n ^^^ (1 <<< k)) = some n :=
   unham8_single
 
+example : unham8 (ham8 9 ^^^ (1 <<< 3)) = some 9 := by decide
+
 /-- Two bit errors in a Hamming 8/4 byte are refused, never decoded as another value. -/
 theorem hamm8_double_error_refused : ∀ n < 16, ∀ j < 8, ∀ k < 8, j ≠ k →
     unham8 (ham8 n ^^^ (1 <<< j) ^^^ (1 <<< k)) = none := unham8_double
+
+example : unham8 (ham8 9 ^^^ (1 <<< 3) ^^^ (1 <<< 5)) = none := by decide
 
 /-- A byte pair decodes iff both bytes decode (the `a | b << 4` sign trick of `vbi_unham16p`). -/
 theorem unham16p_none_iff (p0 p1 : Nat) :
@@ -24,6 +37,492 @@ theorem unham16p_none_iff (p0 p1 : Nat) :
   unfold unham16p
   cases unham8 p0 <;> cases unham8 p1 <;> simp
 
-example : unham8 (ham8 9 ^^^ (1 <<< 3)) = some 9 := by decide
+example : unham16p (ham8 1) 1 = none := by decide
+
+/-- Hamming 24/18: a triplet with zero syndrome decodes to the same 18 data bits after any single
+    bit of any of its three bytes is flipped (`vbi_unham24p` corrects every single error). -/
+theorem hamm24_single_error_corrected (p0 p1 p2 : Nat) (h0 : p0 < 256) (h1 : p1 < 256) (h2 : p2 < 256)
+    (hv : triSyn p0 p1 p2 = 0) (k : Nat) (hk : k < 8) :
+    unham24p p0 p1 p2 = some (triD p0 p1 p2) ∧
+    unham24p (p0 ^^^ 1 <<< k) p1 p2 = some (triD p0 p1 p2) ∧
+    unham24p p0 (p1 ^^^ 1 <<< k) p2 = some (triD p0 p1 p2) ∧
+    unham24p p0 p1 (p2 ^^^ 1 <<< k) = some (triD p0 p1 p2) :=
+  ⟨unham24p_valid p0 p1 p2 hv, unham24p_single0 p0 p1 p2 h0 hv k hk,
+   unham24p_single1 p0 p1 p2 h0 h1 hv k hk, unham24p_single2 p0 p1 p2 h0 h2 hv k hk⟩
+
+example : triSyn (ham24p 0x2ABCD).1 (ham24p 0x2ABCD).2.1 (ham24p 0x2ABCD).2.2 = 0 ∧
+    unham24p ((ham24p 0x2ABCD).1 ^^^ 1 <<< 6) (ham24p 0x2ABCD).2.1 (ham24p 0x2ABCD).2.2 = some 0x2ABCD := by
+  decide
+
+/-! ## VPS -/
+
+/-- what `vbi_decode_vps_cni` reports for a line carrying the 12-bit code `cni`: the code itself,
+    except the shared code 0xDC3 of TR 101 231 which is reported as ARD (0xDC1) or ZDF (0xDC2)
+    according to bit 4 of byte 2 of the line (the documented exception of the property) -/
+def vpsCniSeen (b : Buf) (cni : Nat) : Nat :=
+  if cni = 0x0DC3 then (if bt b 2 &&& 0x10 ≠ 0 then 0x0DC1 else 0x0DC2) else cni
+
+/-- Every CNI up to 0xFFF stored by `vbi_encode_vps_cni` into any 13-byte buffer is returned by
+    `vbi_decode_vps_cni` (0xDC3 translated as documented). -/
+theorem vps_cni_roundtrip (b : Buf) (hlen : b.length = 13) (cni : Nat) (h : cni ≤ 0xFFF) :
+    ∃ b', encodeVpsCni b cni = (true, b') ∧ decodeVpsCni b' = vpsCniSeen b cni := by
+  obtain ⟨b', he, _, h8, h10, h11, hr⟩ := encodeVpsCni_bytes b hlen cni h
+  refine ⟨b', he, ?_⟩
+  rw [decodeVpsCni_eq, rawVpsCni_of b' cni _ _ h h8 h10 h11, hr 2 (by decide) (by decide) (by decide)]
+  rfl
+
+example : decodeVpsCni (encodeVpsCni (List.replicate 13 0xFF) 0xDC3).2 = 0xDC1 ∧
+    decodeVpsCni (encodeVpsCni (List.replicate 13 0) 0xABC).2 = 0xABC := by decide
+
+/-- Every (CNI, PIL, PCS audio, PTY) in range - all 2^20 PILs, so service codes and unreal dates
+    too - stored by `vbi_encode_vps_pdc` into any 13-byte buffer is returned exactly by
+    `vbi_decode_vps_pdc`, with all other fields of the program ID cleared and `mi` set. -/
+theorem vps_pdc_roundtrip (b : Buf) (hlen : b.length = 13) (p : Pid)
+    (hc : p.cni ≤ 0xFFF) (hp : p.pil ≤ 0xFFFFF) (ha : p.pcsAudio ≤ 3) (ht : p.pty ≤ 0xFF) :
+    ∃ b', encodeVpsPdc b p = (true, b') ∧
+      decodeVpsPdc b' = { channel := VBI_PID_CHANNEL_VPS, cniType := VBI_CNI_TYPE_VPS,
+                          cni := vpsCniSeen b p.cni, pil := p.pil, luf := 0, mi := 1, prf := 0,
+                          pcsAudio := p.pcsAudio, pty := p.pty } := by
+  obtain ⟨b', he, _, h2, h8, h9, h10, h11, h12, hr⟩ := encodeVpsPdc_bytes b hlen p hc hp ha ht
+  refine ⟨b', he, ?_⟩
+  have hraw : rawVpsCni b' = p.cni :=
+    rawVpsCni_of b' p.cni (p.pil / 16384 % 64) (p.pil % 64) hc (by rw [h8]; omega) h10 h11
+  have hbit : bt b' 2 &&& 0x10 = bt b 2 &&& 0x10 := by rw [and_10, and_10, h2]; omega
+  have hcni : decodeVpsCni b' = vpsCniSeen b p.cni := by
+    rw [decodeVpsCni_eq, hraw, hbit]; rfl
+  have hpil : rawVpsPil b' = p.pil :=
+    rawVpsPil_of b' p.pil (p.cni / 64 % 4) (p.cni / 1024) hp (by omega) h8 h9 h10
+  have hpcs : bt b' 2 >>> 6 = p.pcsAudio := by rw [h2]; omega
+  unfold rawVpsPil at hpil
+  simp only [decodeVpsPdc, hcni, hpil, hpcs, h12]
+
+example : decodeVpsPdc (encodeVpsPdc (List.replicate 13 0x55)
+    { cni := 0xD95, pil := 0xFFFFF, pcsAudio := 2, pty := 0xA7 }).2
+    = { channel := 4, cniType := 1, cni := 0xD95, pil := 0xFFFFF, mi := 1, pcsAudio := 2, pty := 0xA7 } := by
+  decide
+
+/-- Every 20-bit PIL stored by `vbi_encode_dvb_pdc_descriptor` is returned by
+    `vbi_decode_dvb_pdc_descriptor`. -/
+theorem dvb_pdc_roundtrip (b : Buf) (hlen : b.length = 5) (p : Pid) (hp : p.pil ≤ 0xFFFFF) :
+    ∃ b', encodeDvbPdc b p = (true, b') ∧
+      decodeDvbPdc b' = some { channel := VBI_PID_CHANNEL_PDC_DESCRIPTOR, pil := p.pil, mi := 1 } := by
+  obtain ⟨b', he, _, h0, h1, h2, h3, h4, _⟩ := encodeDvbPdc_bytes b (by omega) p hp
+  refine ⟨b', he, ?_⟩
+  have hpil : ((bt b' 2 &&& 0x0F) <<< 16) + (bt b' 3 <<< 8) + bt b' 4 = p.pil := by
+    rw [and_0F, h2, h3, h4]
+    have : (240 + p.pil / 65536) % 16 = p.pil / 65536 := by omega
+    rw [this]; omega
+  simp [decodeDvbPdc, h0, h1, hpil]
+
+example : decodeDvbPdc (encodeDvbPdc [0, 0, 0, 0, 0] { pil := 0x8ABCD }).2
+    = some { channel := 5, pil := 0x8ABCD, mi := 1 } := by decide
+
+/-- `vbi_encode_vps_cni` (accepting or refusing) keeps the length and every bit outside the CNI
+    field: bytes other than 8, 10, 11 and the low six bits of byte 8 and high six of byte 10. -/
+theorem vps_cni_encode_frame (b : Buf) (hlen : b.length = 13) (cni : Nat) :
+    (encodeVpsCni b cni).2.length = 13 ∧
+    (∀ i, i ≠ 8 → i ≠ 10 → i ≠ 11 → bt (encodeVpsCni b cni).2 i = bt b i) ∧
+    bt (encodeVpsCni b cni).2 8 &&& 0x3F = bt b 8 &&& 0x3F ∧
+    bt (encodeVpsCni b cni).2 10 &&& 0xFC = bt b 10 &&& 0xFC := by
+  by_cases h : cni ≤ 0xFFF
+  · obtain ⟨b', he, hl, h8, h10, _, hr⟩ := encodeVpsCni_bytes b hlen cni h
+    rw [he]
+    refine ⟨hl, hr, ?_, ?_⟩
+    · show bt b' 8 &&& 0x3F = _
+      rw [and_3F, and_3F, h8]; omega
+    · show bt b' 10 &&& 0xFC = _
+      rw [and_FC, and_FC, h10]
+      generalize hy : bt b 10 / 4 % 64 = y
+      generalize hc : cni / 1024 = c
+      have : y < 64 := by omega
+      have : c < 4 := by omega
+      clear hy hc h8 hr he
+      omega
+  · rw [encodeVpsCni_refuse b cni (by omega)]
+    exact ⟨hlen, fun _ _ _ _ => rfl, rfl, rfl⟩
+
+example : (encodeVpsCni (List.replicate 13 0xFF) 0).2
+    = [0xFF, 0xFF, 0xFF, 0xFF, 0xFF, 0xFF, 0xFF, 0xFF, 0x3F, 0xFF, 0xFC, 0, 0xFF] := by decide
+
+/-- `vbi_encode_vps_pdc` keeps the length and every bit outside its fields: bytes other than
+    2, 8..12 and the low six bits of byte 2. -/
+theorem vps_pdc_encode_frame (b : Buf) (hlen : b.length = 13) (p : Pid) :
+    (encodeVpsPdc b p).2.length = 13 ∧
+    (∀ i, i ≠ 2 → i ≠ 8 → i ≠ 9 → i ≠ 10 → i ≠ 11 → i ≠ 12 → bt (encodeVpsPdc b p).2 i = bt b i) ∧
+    bt (encodeVpsPdc b p).2 2 &&& 0x3F = bt b 2 &&& 0x3F := by
+  by_cases h : p.cni ≤ 0xFFF ∧ p.pil ≤ 0xFFFFF ∧ p.pcsAudio ≤ 3 ∧ p.pty ≤ 0xFF
+  · obtain ⟨hc, hp, ha, ht⟩ := h
+    obtain ⟨b', he, hl, h2, _, _, _, _, _, hr⟩ := encodeVpsPdc_bytes b hlen p hc hp ha ht
+    rw [he]
+    refine ⟨hl, hr, ?_⟩
+    show bt b' 2 &&& 0x3F = _
+    rw [and_3F, and_3F, h2]; omega
+  · rw [encodeVpsPdc_refuse b p (by omega)]
+    exact ⟨hlen, fun _ _ _ _ _ _ _ => rfl, rfl⟩
+
+example : (encodeVpsPdc (List.replicate 13 0xFF) {}).2
+    = [0xFF, 0xFF, 0x3F, 0xFF, 0xFF, 0xFF, 0xFF, 0xFF, 0, 0, 0, 0, 0] := by decide
+
+/-- `vbi_encode_dvb_pdc_descriptor` writes bytes 0..4 only and sets the four reserved bits. -/
+theorem dvb_encode_frame (b : Buf) (hlen : 5 ≤ b.length) (p : Pid) :
+    (encodeDvbPdc b p).2.length = b.length ∧ (∀ i, 5 ≤ i → bt (encodeDvbPdc b p).2 i = bt b i) ∧
+    ((encodeDvbPdc b p).1 = true → bt (encodeDvbPdc b p).2 2 &&& 0xF0 = 0xF0) := by
+  by_cases h : p.pil ≤ 0xFFFFF
+  · obtain ⟨b', he, hl, _, _, h2, _, _, hr⟩ := encodeDvbPdc_bytes b hlen p h
+    rw [he]
+    refine ⟨hl, hr, fun _ => ?_⟩
+    show bt b' 2 &&& 0xF0 = _
+    rw [and_F0, h2]; omega
+  · rw [encodeDvbPdc_refuse b p (by omega)]
+    exact ⟨rfl, fun _ _ => rfl, fun h => by simp at h⟩
+
+example : (encodeDvbPdc [1, 2, 3, 4, 5, 6] { pil := 0x12345 }).2 = [0x69, 3, 0xF1, 0x23, 0x45, 6] := by
+  decide
+
+/-- DVB descriptor: re-encoding what was decoded from any accepted descriptor `b` into any buffer
+    reproduces tag, length and the 20 PIL bits of `b` (the reserved nibble is forced to 1111). -/
+theorem dvb_reencode (b t : Buf) (hb : Bytes b) (ht : 5 ≤ t.length) (p : Pid) (hd : decodeDvbPdc b = some p) :
+    ∃ t', encodeDvbPdc t p = (true, t') ∧ bt t' 0 = bt b 0 ∧ bt t' 1 = bt b 1 ∧
+      bt t' 2 &&& 0x0F = bt b 2 &&& 0x0F ∧ bt t' 3 = bt b 3 ∧ bt t' 4 = bt b 4 := by
+  unfold decodeDvbPdc at hd
+  by_cases h : (bt b 0 != 0x69 || bt b 1 != 3) = true
+  · rw [if_pos h] at hd; cases hd
+  · rw [if_neg h] at hd
+    simp only [Bool.or_eq_true, bne_iff_ne, ne_eq, not_or, Decidable.not_not] at h
+    injection hd with hd
+    have hpil : p.pil = ((bt b 2 &&& 0x0F) <<< 16) + (bt b 3 <<< 8) + bt b 4 := by rw [← hd]
+    have b2 := hb 2; have b3 := hb 3; have b4 := hb 4
+    rw [and_0F] at hpil
+    obtain ⟨t', he, _, h0, h1, h2, h3, h4, _⟩ := encodeDvbPdc_bytes t ht p (by rw [hpil]; omega)
+    refine ⟨t', he, by rw [h0, h.1], by rw [h1, h.2], ?_, ?_, ?_⟩
+    · rw [and_0F, and_0F, h2, hpil]; omega
+    · rw [h3, hpil]; omega
+    · rw [h4, hpil]; omega
+
+example : (encodeDvbPdc [0, 0, 0, 0, 0] ((decodeDvbPdc [0x69, 3, 0x0A, 0xBC, 0xDE]).getD {})).2
+    = [0x69, 3, 0xFA, 0xBC, 0xDE] := by decide
+
+/-- the values `vbi_decode_vps_pdc` returns are always accepted by the encoder -/
+theorem decodeVpsPdc_range (b : Buf) (hb : Bytes b) :
+    (decodeVpsPdc b).cni ≤ 0xFFF ∧ (decodeVpsPdc b).pil ≤ 0xFFFFF ∧
+    (decodeVpsPdc b).pcsAudio ≤ 3 ∧ (decodeVpsPdc b).pty ≤ 0xFF := by
+  have b2 := hb 2; have b8 := hb 8; have b9 := hb 9; have b10 := hb 10; have b11 := hb 11; have b12 := hb 12
+  have hraw : rawVpsCni b ≤ 0xFFF := by rw [rawVpsCni_nf]; omega
+  refine ⟨?_, ?_, ?_, ?_⟩
+  · show decodeVpsCni b ≤ _
+    rw [decodeVpsCni_eq]; split
+    · split <;> decide
+    · exact hraw
+  · show rawVpsPil b ≤ _
+    rw [rawVpsPil_nf]; omega
+  · show bt b 2 >>> 6 ≤ 3
+    omega
+  · show bt b 12 ≤ 255
+    omega
+
+example : (decodeVpsPdc (List.replicate 13 0xFF)).pil = 0xFFFFF := by decide
+
+/-- Re-encoding what was decoded from any received line `b` into any buffer `t` succeeds and
+    reproduces the field bits of `b`: PCS audio bits, PIL, PTY and the CNI as decoded; when the
+    line did not carry the shared code 0xDC3 (the one documented exception) bytes 8, 10, 11 are
+    reproduced bit for bit. -/
+theorem vps_reencode (b t : Buf) (hb : Bytes b) (ht : t.length = 13) :
+    ∃ t', encodeVpsPdc t (decodeVpsPdc b) = (true, t') ∧
+      bt t' 2 &&& 0xC0 = bt b 2 &&& 0xC0 ∧ bt t' 9 = bt b 9 ∧ bt t' 12 = bt b 12 ∧
+      rawVpsPil t' = rawVpsPil b ∧ rawVpsCni t' = decodeVpsCni b ∧
+      (rawVpsCni b ≠ 0x0DC3 → bt t' 8 = bt b 8 ∧ bt t' 10 = bt b 10 ∧ bt t' 11 = bt b 11) := by
+  obtain ⟨rc, rp, ra, rt⟩ := decodeVpsPdc_range b hb
+  obtain ⟨t', he, _, h2, h8, h9, h10, h11, h12, _⟩ := encodeVpsPdc_bytes t ht _ rc rp ra rt
+  have b2 := hb 2; have b8 := hb 8; have b9 := hb 9; have b10 := hb 10; have b11 := hb 11; have b12 := hb 12
+  have epil : (decodeVpsPdc b).pil = rawVpsPil b := rfl
+  have ecni : (decodeVpsPdc b).cni = decodeVpsCni b := rfl
+  have epcs : (decodeVpsPdc b).pcsAudio = bt b 2 >>> 6 := rfl
+  have epty : (decodeVpsPdc b).pty = bt b 12 := rfl
+  rw [epil, ecni] at h8 h10
+  rw [ecni] at h11 rc
+  rw [epil] at h9 rp
+  have hpil : rawVpsPil t' = rawVpsPil b :=
+    rawVpsPil_of t' _ (decodeVpsCni b / 64 % 4) (decodeVpsCni b / 1024) rp (by omega) h8 h9 h10
+  have hcni : rawVpsCni t' = decodeVpsCni b :=
+    rawVpsCni_of t' _ (rawVpsPil b / 16384 % 64) (rawVpsPil b % 64) rc (by rw [h8]; omega) h10 h11
+  refine ⟨t', he, ?_, ?_, ?_, hpil, hcni, ?_⟩
+  · rw [and_C0, and_C0, h2, epcs]; omega
+  · rw [h9, rawVpsPil_nf]; omega
+  · rw [h12, epty]
+  · intro hne
+    have hd : decodeVpsCni b = rawVpsCni b := by rw [decodeVpsCni_eq, if_neg hne]
+    rw [hd] at h8 h10 h11
+    obtain ⟨c1, c2, c3, c4⟩ := rawVpsCni_fields b hb
+    obtain ⟨p1, _, p3⟩ := rawVpsPil_fields b hb
+    refine ⟨?_, ?_, ?_⟩
+    · rw [h8, c1, p1]; omega
+    · rw [h10, c2, p3]; omega
+    · rw [h11, c3, c4]; omega
+
+example : (encodeVpsPdc (List.replicate 13 0)
+    (decodeVpsPdc [1, 2, 0xC3, 4, 5, 6, 7, 8, 0x9A, 0xBC, 0xDE, 0xF0, 0x11])).2
+    = [0, 0, 0xC0, 0, 0, 0, 0, 0, 0x9A, 0xBC, 0xDE, 0xF0, 0x11] := by decide
+
+/-- Decoding a line (not carrying 0xDC3) and encoding the result back into the same line is the
+    identity on all 104 bits. -/
+theorem vps_reencode_same (b : Buf) (hb : Bytes b) (hlen : b.length = 13) (hne : rawVpsCni b ≠ 0x0DC3) :
+    encodeVpsPdc b (decodeVpsPdc b) = (true, b) := by
+  obtain ⟨rc, rp, ra, rt⟩ := decodeVpsPdc_range b hb
+  obtain ⟨t', he, hl, h2, _, _, _, _, _, hr⟩ := encodeVpsPdc_bytes b hlen _ rc rp ra rt
+  obtain ⟨t'', he', _, h9, h12, _, _, h3⟩ := vps_reencode b b hb hlen
+  rw [he] at he'
+  have : t'' = t' := by injection he' with _ h; exact h.symm
+  subst this
+  obtain ⟨h8, h10, h11⟩ := h3 hne
+  rw [he]
+  congr 1
+  apply ext_bt _ _ (by rw [hl, hlen])
+  intro i
+  by_cases i2 : i = 2
+  · subst i2; rw [h2]
+    have : (decodeVpsPdc b).pcsAudio = bt b 2 >>> 6 := rfl
+    rw [this]; have := hb 2; omega
+  by_cases i8 : i = 8
+  · subst i8; exact h8
+  by_cases i9 : i = 9
+  · subst i9; exact h9
+  by_cases i10 : i = 10
+  · subst i10; exact h10
+  by_cases i11 : i = 11
+  · subst i11; exact h11
+  by_cases i12 : i = 12
+  · subst i12; exact h12
+  exact hr i i2 i8 i9 i10 i11 i12
+
+/-- the exception is real: a line carrying 0xDC3 is not reproduced by decode + encode -/
+theorem vps_reencode_dc3_counterexample :
+    ∃ b : Buf, Bytes b ∧ b.length = 13 ∧ rawVpsCni b = 0x0DC3 ∧
+      encodeVpsPdc b (decodeVpsPdc b) ≠ (true, b) := by
+  refine ⟨[0, 0, 0, 0, 0, 0, 0, 0, 0xC0, 0, 3, 0x43, 0], ?_, by decide, by decide, by decide⟩
+  intro i
+  by_cases h : i < 13
+  · have : ∀ j < 13, bt [0, 0, 0, 0, 0, 0, 0, 0, 0xC0, 0, 3, 0x43, 0] j < 256 := by decide
+    exact this i h
+  · have : bt [0, 0, 0, 0, 0, 0, 0, 0, 0xC0, 0, 3, 0x43, 0] i = 0 := by
+      unfold bt; rw [List.getD_eq_getElem?_getD, List.getElem?_eq_none (by simpa using Nat.le_of_not_lt h)]; rfl
+    omega
+
+example : decodeVpsCni [0, 0, 0, 0, 0, 0, 0, 0, 0xC0, 0, 3, 0x43, 0] = 0xDC2 := by decide
+
+/-- Encoders refuse out-of-range values, and then return the buffer unmodified. -/
+theorem vps_encode_refuses (b : Buf) (p : Pid) :
+    (p.cni > 0xFFF → encodeVpsCni b p.cni = (false, b)) ∧
+    (p.cni > 0xFFF ∨ p.pil > 0xFFFFF ∨ p.pcsAudio > 3 ∨ p.pty > 0xFF → encodeVpsPdc b p = (false, b)) ∧
+    (p.pil > 0xFFFFF → encodeDvbPdc b p = (false, b)) :=
+  ⟨encodeVpsCni_refuse b p.cni, encodeVpsPdc_refuse b p, encodeDvbPdc_refuse b p⟩
+
+example : encodeVpsPdc [1, 2, 3] { cni := 0x1000 } = (false, [1, 2, 3]) ∧
+    encodeVpsPdc [1, 2, 3] { pcsAudio := 4 } = (false, [1, 2, 3]) := by decide
+
+/-- ... and they refuse nothing else: every in-range value is accepted. -/
+theorem vps_encode_accepts (b : Buf) (hlen : b.length = 13) (p : Pid)
+    (hc : p.cni ≤ 0xFFF) (hp : p.pil ≤ 0xFFFFF) (ha : p.pcsAudio ≤ 3) (ht : p.pty ≤ 0xFF) :
+    (encodeVpsCni b p.cni).1 = true ∧ (encodeVpsPdc b p).1 = true ∧ (encodeDvbPdc b p).1 = true := by
+  obtain ⟨_, h1, _⟩ := encodeVpsCni_bytes b hlen p.cni hc
+  obtain ⟨_, h2, _⟩ := encodeVpsPdc_bytes b hlen p hc hp ha ht
+  obtain ⟨_, h3, _⟩ := encodeDvbPdc_bytes b (by omega) p hp
+  rw [h1, h2, h3]; exact ⟨rfl, rfl, rfl⟩
+
+example : (encodeVpsPdc (List.replicate 13 0) { cni := 0xFFF, pil := 0xFFFFF, pcsAudio := 3, pty := 0xFF }).1 = true := by
+  decide
+
+/-- `vbi_decode_dvb_pdc_descriptor` refuses a wrong descriptor tag or length. -/
+theorem dvb_decode_refuses (b : Buf) (h : bt b 0 ≠ 0x69 ∨ bt b 1 ≠ 3) : decodeDvbPdc b = none := by
+  unfold decodeDvbPdc
+  rcases h with h | h <;> simp [h]
+
+example : decodeDvbPdc [0x69, 4, 0, 0, 0] = none := by decide
+
+/-! ## Teletext packet 8/30 format 1 -/
+
+/-- `vbi_decode_teletext_8301_cni` returns every 16-bit CNI the sender (EN 300 706 9.8.1:
+    two bit-reversed bytes) transmits. -/
+theorem p8301_cni_roundtrip (fill : Nat → Nat) (cni mjd hh mm ss l : Nat) (neg : Bool) (hc : cni < 65536) :
+    decode8301Cni (enc8301 fill cni mjd hh mm ss l neg) = cni := by
+  unfold decode8301Cni
+  rw [bt_enc8301_9, bt_enc8301_10, and_FF, and_FF,
+    rev8_involutive _ (Nat.mod_lt _ (by decide)), rev8_involutive _ (Nat.mod_lt _ (by decide))]
+  omega
+
+example : decode8301Cni (enc8301 (fun _ => 0) 0x1234 0 0 0 0 0 false) = 0x1234 := by decide
+
+/-- Complete description of `vbi_decode_teletext_8301_local_time` on every 42-byte packet: it
+    accepts iff all eleven MJD/UTC nibbles are BCD+1 digits (1..10) and seconds <= 60, minutes < 60,
+    hours < 24 (`Valid8301`); then it returns exactly (MJD - 40587) * 86400 + UTC seconds and the
+    offset of byte 11; otherwise it returns FALSE (`none`: nothing is stored).  This contains the
+    refusal clause: a zero or > 10 nibble (BCD-invalid) or an out-of-range time field -> `none`. -/
+theorem p8301_decode_spec (b : Buf) (hb : Bytes b) :
+    (Valid8301 b → decode8301LocalTime b
+        = some (((mjdOf b : Nat) - 40587 : Int) * 86400
+                + ((ssOf b + mmOf b * 60 + hhOf b * 3600 : Nat) : Int), ltoOf b)) ∧
+    (¬ Valid8301 b → decode8301LocalTime b = none) :=
+  decode8301_spec b (TimeBytes.of_bytes hb)
+
+example : ¬ Valid8301 (List.replicate 42 0) ∧ decode8301LocalTime (List.replicate 42 0) = none := by
+  decide
+
+/-- For all MJD < 10^5, every time of day (leap second 60 included), every local time offset
+    of -31..31 half hours and every CNI: decoding the packet of the sender specification returns
+    exactly those values, time = (mjd - 40587) * 86400 + utc. -/
+theorem p8301_roundtrip (fill : Nat → Nat) (cni mjd hh mm ss l : Nat) (neg : Bool)
+    (hmjd : mjd < 100000) (h1 : hh < 24) (h2 : mm < 60) (h3 : ss ≤ 60) (hl : l < 32) :
+    decode8301LocalTime (enc8301 fill cni mjd hh mm ss l neg)
+      = some (((mjd : Nat) - 40587 : Int) * 86400 + ((ss + mm * 60 + hh * 3600 : Nat) : Int),
+              if neg then -((l * 1800 : Nat) : Int) else ((l * 1800 : Nat) : Int)) := by
+  obtain ⟨hv, e1, e2, e3, e4⟩ := enc8301_fields fill cni mjd hh mm ss l neg hmjd h1 h2 h3
+  rw [(decode8301_spec _ (enc8301_timeBytes fill cni mjd hh mm ss l neg)).1 hv, e1, e2, e3, e4]
+  congr 2
+  unfold ltoOf
+  rw [bt_enc8301_11, Nat.mod_eq_of_lt hl]
+  obtain ⟨a, b, _⟩ := lto_byte l hl neg
+  rw [a, b]
+  cases neg
+  · simp only [Bool.false_eq_true, if_false]; omega
+  · simp only [if_true]; omega
+
+example : decode8301LocalTime (enc8301 (fun _ => 0xFF) 0 58754 23 59 60 31 true)
+    = some ((58754 - 40587) * 86400 + 86400, -55800) := by decide
+
+/-- BCD-invalid or out-of-range input is refused (the cases of the property, spelled out):
+    a transmitted nibble that is 0 or above 10 in the MJD or UTC, seconds > 60, minutes >= 60 or
+    hours >= 24. -/
+theorem p8301_refuses (b : Buf) (hb : Bytes b)
+    (h : ¬ MjdOk b ∨ ¬ UtcOk b ∨ ssOf b > 60 ∨ mmOf b ≥ 60 ∨ hhOf b ≥ 24) :
+    decode8301LocalTime b = none := by
+  apply (p8301_decode_spec b hb).2
+  rintro ⟨a, b', c, d, e⟩
+  rcases h with h | h | h | h | h
+  · exact h a
+  · exact h b'
+  · omega
+  · omega
+  · omega
+
+example : decode8301LocalTime ((enc8301 (fun _ => 0) 0 58754 23 59 59 0 false).set 15 0x35) = none := by
+  decide
+
+/-! ## Teletext packet 8/30 format 2 -/
+
+/-- All field combinations of packet 8/30 format 2: decoding the packet of the sender
+    specification (EN 300 231: bit-reversed nibbles, Hamming 8/4) returns exactly the label
+    channel, LUF, PRF, PCS audio, MI, CNI, PIL and PTY that were sent; same for the CNI decoder. -/
+theorem p8302_roundtrip (fill : Nat → Nat) (f : F2) (h1 : f.lci < 4) (h2 : f.luf < 2) (h3 : f.prf < 2)
+    (h4 : f.pcs < 4) (h5 : f.mi < 2) (h6 : f.cni < 65536) (h7 : f.pil < 1048576) (h8 : f.pty < 256) :
+    decode8302Pdc (enc8302 fill f) = some
+      { channel := f.lci, cniType := VBI_CNI_TYPE_8302, cni := f.cni, pil := f.pil, luf := f.luf,
+        mi := f.mi, prf := f.prf, pcsAudio := f.pcs, pty := f.pty } ∧
+    decode8302Cni (enc8302 fill f) = some f.cni := by
+  have hs := enc8302_sent fill f
+  have hx : ∀ j, j < 6 → (fun k => (f2Bytes f).getD (k - 6) 0) (7 + j) < 256 := by
+    intro j hj
+    have : j = 0 ∨ j = 1 ∨ j = 2 ∨ j = 3 ∨ j = 4 ∨ j = 5 := by omega
+    rw [f2Bytes_nf]
+    rcases this with rfl | rfl | rfl | rfl | rfl | rfl <;> simp <;> omega
+  have h6' : (fun k => (f2Bytes f).getD (k - 6) 0) 6 < 16 := by
+    rw [f2Bytes_nf]; simp; omega
+  obtain ⟨c1, c2, c3⟩ := f2_x6 f.lci f.luf f.prf h1 h2 h3
+  obtain ⟨d1, d2, d3⟩ := f2_x7 f.pcs f.mi f.cni h4 h5 h6
+  have ec := f2_cni _ f.cni f.pil d3
+  have ep := f2_pil f.cni f.pil h7
+  refine ⟨?_, ?_⟩
+  · rw [dec8302Pdc_sent _ _ hs h6' hx, f2Bytes_nf]
+    simp only [Nat.sub_self, Nat.reduceSub, List.getD_cons_zero, List.getD_cons_succ]
+    rw [c1, c2, c3, d1, d2, ec, ep, Nat.mod_eq_of_lt h8]
+  · rw [dec8302Cni_sent _ _ hs hx, f2Bytes_nf]
+    simp only [Nat.reduceSub, List.getD_cons_zero, List.getD_cons_succ]
+    rw [ec]
+
+example : decode8302Pdc (enc8302 (fun _ => 0)
+    { lci := 2, luf := 1, prf := 0, pcs := 3, mi := 1, cni := 0xFDCB, pil := 0xABCDE, pty := 0x5A })
+    = some { channel := 2, cniType := 3, cni := 0xFDCB, pil := 0xABCDE, luf := 1, mi := 1, prf := 0,
+             pcsAudio := 3, pty := 0x5A } := by decide
+
+/-- flip bit `k` of byte `i` of a packet -/
+def flipBit (b : Buf) (i k : Nat) : Buf := b.set i (bt b i ^^^ (1 <<< k))
+
+/-- One flipped bit in any Hamming-protected byte (9..21) of any packet whose protected bytes are
+    valid Hamming 8/4 codewords leaves the result of both format-2 decoders unchanged. -/
+theorem p8302_single_error (b : Buf) (hv : ∀ j, 9 ≤ j → j ≤ 21 → ∃ n, n < 16 ∧ bt b j = ham8 n)
+    (i k : Nat) (hi1 : 9 ≤ i) (hi2 : i ≤ 21) (hk : k < 8) :
+    decode8302Pdc (flipBit b i k) = decode8302Pdc b ∧ decode8302Cni (flipBit b i k) = decode8302Cni b := by
+  have key : ∀ j, 9 ≤ j → j ≤ 21 → unham8 (bt (flipBit b i k) j) = unham8 (bt b j) := by
+    intro j j1 j2
+    unfold flipBit
+    rw [bt_set]
+    split
+    · rename_i h
+      obtain ⟨n, hn, e⟩ := hv i hi1 hi2
+      rw [← h.1, e, unham8_single n hn k hk, unham8_ham8 n hn]
+    · rfl
+  rw [decode8302Pdc_factor, decode8302Pdc_factor, decode8302Cni_factor, decode8302Cni_factor]
+  exact ⟨dec8302PdcOf_congr _ _ key, dec8302CniOf_congr _ _ key⟩
+
+example : decode8302Pdc (flipBit (enc8302 (fun _ => 0)
+    { lci := 2, luf := 1, prf := 0, pcs := 3, mi := 1, cni := 0xFDCB, pil := 0xABCDE, pty := 0x5A }) 13 6)
+    = some { channel := 2, cniType := 3, cni := 0xFDCB, pil := 0xABCDE, luf := 1, mi := 1, prf := 0,
+             pcsAudio := 3, pty := 0x5A } := by decide
+
+/-- the packets of the sender specification satisfy the hypothesis of `p8302_single_error` -/
+theorem enc8302_codewords (fill : Nat → Nat) (f : F2) :
+    ∀ j, 9 ≤ j → j ≤ 21 → ∃ n, n < 16 ∧ bt (enc8302 fill f) j = ham8 n := by
+  intro j j1 j2
+  have r4 : ∀ x, rev4 x < 16 := by
+    intro x; unfold rev4
+    have : ∀ y < 16, rev8 y >>> 4 < 16 := by decide
+    exact this _ (Nat.mod_lt _ (by decide))
+  have r8 : ∀ x, rev8 x < 256 := fun x => by
+    unfold rev8; exact rev8_lt _ (Nat.mod_lt _ (by decide)) |> fun h => by simpa [rev8] using h
+  by_cases h9 : j = 9
+  · subst h9; exact ⟨_, r4 _, bt_enc8302_9 fill f⟩
+  by_cases hpar : j % 2 = 0
+  · have : j = 10 + 2 * ((j - 10) / 2) := by omega
+    rw [this]
+    refine ⟨_, ?_, bt_enc8302_even fill f _ (by omega)⟩
+    rw [and_15]; exact Nat.mod_lt _ (by decide)
+  · have : j = 11 + 2 * ((j - 11) / 2) := by omega
+    rw [this]
+    refine ⟨_, ?_, bt_enc8302_odd fill f _ (by omega)⟩
+    have := r8 ((f2Bytes f).getD ((j - 11) / 2 + 1) 0)
+    omega
+
+example : bt (enc8302 (fun _ => 0) { lci := 0, luf := 0, prf := 0, pcs := 0, mi := 0, cni := 0, pil := 0, pty := 0 }) 9
+    = ham8 0 := by decide
+
+/-- Hamming failure is refused: if `vbi_unham8` fails on any of the bytes 9..21 the PDC decoder
+    returns FALSE, and the CNI decoder does so for the eight bytes it reads. -/
+theorem p8302_refuses (b : Buf) (j : Nat) (hj : unham8 (bt b j) = none) :
+    (9 ≤ j → j ≤ 21 → decode8302Pdc b = none) ∧
+    (j = 10 ∨ j = 11 ∨ j = 12 ∨ j = 13 ∨ j = 16 ∨ j = 17 ∨ j = 18 ∨ j = 19 → decode8302Cni b = none) := by
+  constructor
+  · intro j1 j2
+    rw [decode8302Pdc_factor]
+    exact dec8302PdcOf_none _ j j1 j2 hj
+  · intro h
+    rw [decode8302Cni_factor]; unfold dec8302CniOf pair16
+    rcases h with rfl | rfl | rfl | rfl | rfl | rfl | rfl | rfl <;>
+      (simp only [hj]; repeat' split) <;> simp_all
+
+example : decode8302Pdc (List.replicate 42 1) = none := by decide
+
+/-- Two flipped bits in one protected byte of a valid packet are refused, never decoded as
+    different values. -/
+theorem p8302_double_error_refused (b : Buf) (hv : ∀ j, 9 ≤ j → j ≤ 21 → ∃ n, n < 16 ∧ bt b j = ham8 n)
+    (hlen : b.length = 42) (i k k' : Nat) (hi1 : 9 ≤ i) (hi2 : i ≤ 21) (hk : k < 8) (hk' : k' < 8) (hne : k ≠ k') :
+    decode8302Pdc (b.set i (bt b i ^^^ (1 <<< k) ^^^ (1 <<< k'))) = none := by
+  obtain ⟨n, hn, e⟩ := hv i hi1 hi2
+  refine (p8302_refuses _ i ?_).1 hi1 hi2
+  rw [bt_set, if_pos ⟨rfl, by omega⟩, e]
+  exact unham8_double n hn k hk k' hk' hne
+
+example : decode8302Pdc ((enc8302 (fun _ => 0)
+    { lci := 2, luf := 1, prf := 0, pcs := 3, mi := 1, cni := 0xFDCB, pil := 0xABCDE, pty := 0x5A }).set 13
+      (bt (enc8302 (fun _ => 0)
+    { lci := 2, luf := 1, prf := 0, pcs := 3, mi := 1, cni := 0xFDCB, pil := 0xABCDE, pty := 0x5A }) 13 ^^^ 1 ^^^ 4))
+    = none := by decide
 
 end Zvbi.Props.C12
